@@ -7,7 +7,9 @@ domain; class B = bounded stand-in with the stated bound) or a Verus file
 whose discharge decides it.
 """
 
-REPO = "/repo"
+import os as _os
+# the tree under verification; overridden only by tools/run_seeded_wt.sh (seeded changes applied to a scratch worktree)
+REPO = _os.environ.get("VERIF_REPO", "/repo")
 
 # --------------------------------------------------------------------------- units
 UNITS = {
@@ -272,6 +274,35 @@ UNITS["selector"] = {
     "timeout_quick": 1200,
 }
 
+UNITS["poller_glue"] = {
+    "kind": "kani",
+    "crate": "harness/poller_glue",
+    "harness_mod": "glue::verif_contracts",
+    "kani_flags": [],
+    "env": {"VCOLL_CAP": "2", "VCOLL_VCAP": "3"},
+    "sources": ["datacake-eventual-consistency/src/replication/poller.rs", "datacake-eventual-consistency/src/keyspace/mod.rs", "datacake-crdt/src/timestamp.rs"],
+    "slice": [
+        {"mode": "items", "src": "datacake-eventual-consistency/src/keyspace/mod.rs", "out": "consts.rs",
+         "prelude": "/verif/harness/poller_glue/src/prelude_consts.rs",
+         "items": [{"kind": "const", "name": "READ_REPAIR_SOURCE_ID"}]},
+        {"mode": "items", "src": "datacake-eventual-consistency/src/replication/poller.rs", "out": "glue.rs",
+         "prelude": "/verif/harness/poller_glue/src/prelude.rs",
+         "drop_attrs": ["instrument"],
+         "deasync": True,
+         "items": [{"kind": "const", "name": "MAX_NUMBER_OF_DOCS_PER_FETCH"}, {"kind": "fn", "name": "handle_modified"}, {"kind": "fn", "name": "handle_removals"}],
+         "append": ['#[cfg(kani)] #[path = "/verif/harness/poller_glue/src/contracts.rs"] mod verif_contracts;']},
+    ],
+    "extraction": "const READ_REPAIR_SOURCE_ID (keyspace/mod.rs), const MAX_NUMBER_OF_DOCS_PER_FETCH, fn handle_modified, fn handle_removals (poller.rs) cut verbatim; dropped attribute "
+                  "#[instrument(..)]; `async`/`.await` deleted",
+    "functions": ["handle_removals", "handle_modified"],
+    "assumptions": [
+        "Del/MultiDel/MultiSet/DocumentMetadata/Document mirror keyspace/messages.rs and core.rs; DocVec (SmallVec) / Vec -> vcoll::VVec (chunks, remove, from_vec modelled); the actor mailbox is a RECORDING "
+        "stand-in whose send may fail delivering nothing; the peer client returns one document per requested id (arbitrary stamp) or fails; anyhow::Error is an opaque error",
+        "lists of <= 3 documents, far below the 50 000 chunk size: exactly one chunk is exercised (the chunk loop for several chunks is NOT covered)",
+    ],
+    "timeout_quick": 600,
+}
+
 UNITS["clock"] = {
     "kind": "kani",
     "crate": "harness/clock",
@@ -511,6 +542,18 @@ _k("mb_delta_step", "membership", "B", "watch_membership_changes",
    "snapshot with the address they had); consumer fold == others(cur); departed addresses disconnected; set_nodes gets exactly cur's DC layout",
    bound="2 snapshots x 2 ids (self + one other node) x 2 addresses x 2 DCs (three ids: 22 M SAT variables, out of memory at 24 GB)")
 
+_k("mb_slow_subscriber", "membership", "B", "watch_membership_changes + the latest-value delta channel",
+   "concrete history: node 1 joins, a second (unchanged) snapshot is processed before the subscriber reads: the subscriber, handed the latest delta only, must still hold node 1 -- "
+   "FAILS on the pinned tree (defect D6, known finding: deltas on a latest-value channel)", bound="one concrete history")
+
+# ---- unit poller_glue (C05: repair glue)
+_k("pg_handle_removals", "poller_glue", "B", "handle_removals (poller.rs)",
+   "<= 3 listed removals, delivery may fail: [] -> nothing sent; [d] -> exactly one Del on the read-repair source carrying d; longer -> exactly one MultiDel on the read-repair source carrying "
+   "every listed (id, stamp) in order; a failed send is reported and delivers nothing", bound="list <= 3")
+_k("pg_handle_modified", "poller_glue", "B", "handle_modified (poller.rs)",
+   "<= 3 listed modifications, fetch and delivery may fail: exactly the listed ids are fetched from the peer, in order; the fetched documents reach the keyspace in exactly one MultiSet on the "
+   "read-repair source with the repair context; progress registered and completed; [] fetches and sends nothing; failures are reported", bound="list <= 3 (one chunk)")
+
 # ---- unit clock
 _k("ck_two_events", "clock", "P", "run_clock",
    "arbitrary clock state, any two events, arbitrary wall reading per event: Get replies are strictly increasing in channel order, carry the node id, and a Get after an "
@@ -571,7 +614,7 @@ PROPERTIES = {
         "level": "proof", "explanation": "", "assumptions": [],
     },
     "C05": {
-        "obligations": ["os_lacks", "os_diff_list", "os_diff_list_3", "os_insert_contract", "os_delete_contract", "lemmas_repair"],
+        "obligations": ["os_lacks", "os_diff_list", "os_diff_list_3", "os_insert_contract", "os_delete_contract", "pg_handle_removals", "pg_handle_modified", "lemmas_repair"],
         "level": "proof", "explanation": "", "assumptions": [],
     },
     "C08": {
@@ -584,9 +627,9 @@ PROPERTIES = {
         "level": "proof", "explanation": "", "assumptions": [],
     },
     "C03": {
-        "obligations": ["os_merge_slots_1", "os_merge_slots_2", "os_versions_merge", "os_before", "lemmas_merge"],
+        "obligations": ["os_merge_slots_1", "os_versions_merge", "os_before", "lemmas_merge"],
         "level": "other",
-        "explanation": "bounded contract checking (class B) of the real OrSWotSet::merge per key (<= 1 key per side quick, <= 2 thorough; cut-offs of both sides arbitrary) against the "
+        "explanation": "bounded contract checking (class B) of the real OrSWotSet::merge per key (<= 1 key per side, possibly the same key; cut-offs of both sides arbitrary) against the "
                        "five-case merge kernel, with NodeVersions::merge linked by contract and checked separately; the algebra is PROVED (Verus, unbounded): under the window hypothesis the "
                        "kernel is the join of a semilattice, so any order, grouping and repetition of merges gives the same slot for every key",
         "assumptions": ["decided under the property's hypothesis 'all timestamps lie within one forgiveness period' (then no cut-off flag of the merge kernel can be set: lemma_window_no_before); "
@@ -604,7 +647,7 @@ PROPERTIES = {
                         "crash points: the rebuilt state is a function of storage alone (the contract quantifies over every storage content), so the in-memory state at the crash is irrelevant"],
     },
     "C16": {
-        "obligations": ["mb_delta_step", "lemmas_membership"],
+        "obligations": ["mb_delta_step", "mb_slow_subscriber", "lemmas_membership"],
         "level": "other",
         "explanation": "bounded contract checking (class B): the delta function of watch_membership_changes for one transition from an ARBITRARY previous snapshot "
                        "(self + one other node x 2 addresses x 2 data centres, all symbolic -- an inductive step over snapshot histories inside that size) plus the unbounded Verus fold lemma "
